@@ -263,10 +263,29 @@ func (w *World) SoilFile() (name, content string) {
 		if bd {
 			cols = append(cols[:5], append([]string{"BulkDensity"}, cols[5:]...)...)
 		}
-		b.WriteString(strings.Join(cols, ",") + e)
+		// the reader finds its columns by name: every project may list them in an order of its own (a rotation of the
+		// standard order with the id column kept first, chosen by the project's name)
+		rot := 0
+		for _, ch := range w.Loc {
+			rot += int(ch)
+		}
+		rot = rot % 4 * 3 // 0, 3, 6 or 9 places
+		permute := func(f []string) []string {
+			if rot == 0 || len(f) < 4 {
+				return f
+			}
+			rest := f[1:]
+			k := rot % len(rest)
+			return append([]string{f[0]}, append(append([]string{}, rest[k:]...), rest[:k]...)...)
+		}
+		b.WriteString(strings.Join(permute(cols), ",") + e)
 		for si := range soils {
 			for i := range soils[si].Horizons {
-				b.WriteString(soilLineCSV(&soils[si], i, bd) + e)
+				f := strings.Split(soilLineCSV(&soils[si], i, bd), ",")
+				for len(f) < len(cols) {
+					f = append(f, "")
+				}
+				b.WriteString(strings.Join(permute(f), ",") + e)
 			}
 		}
 		return "soil_" + w.Loc + ".csv", b.String()
